@@ -164,14 +164,14 @@ def check_doc(syntax, rows, flags, modes, tmpdir, plain_doc=None):
             with seams.watchdog(20.0):
                 got = parse_doc(doc, fmt, quads, mode, tmpdir)
         except Exception as e:  # noqa: BLE001
-            viols.append(("%s|%s|%s|parse-raises|%s" % (syntax, dev, "mode:" + mode if mode != "data-str" else "any-mode", type(e).__name__),
-                          {"document": doc[:1500], "exc": repr(e)[:300], "mode": mode}))
+            sig = "%s|%s|parse-raises|%s" % (syntax, dev, type(e).__name__) if mode == "data-str" else "input-mode|%s|parse-raises|%s" % (mode, type(e).__name__)
+            viols.append((sig, {"document": doc[:1500], "exc": repr(e)[:300], "mode": mode}))
             if mode == "data-str":
                 break
             continue
         if not iso(got, want):
-            viols.append(("%s|%s|%s|parsed-graph-differs" % (syntax, dev, "mode:" + mode if mode != "data-str" else "any-mode"),
-                          {"document": doc[:1500], "parsed": sorted(got, key=repr)[:12], "expected": sorted(want, key=repr)[:12], "mode": mode}))
+            sig = "%s|%s|parsed-graph-differs" % (syntax, dev) if mode == "data-str" else "input-mode|%s|%s|parsed-graph-differs-from-str-mode" % (mode, syntax)
+            viols.append((sig, {"document": doc[:1500], "parsed": sorted(got, key=repr)[:12], "expected": sorted(want, key=repr)[:12], "mode": mode}))
             if mode == "data-str":
                 break
     return viols, doc, applicable
